@@ -29,6 +29,9 @@ class Facts:
         self.known = set(known) if known is not None else None
         self.inlined = {}      # caller -> [helpers inlined into it]
         self.absorbed = set()
+        self.renamed = {}      # reference name -> name in this tree
+        if isinstance(known, dict):
+            self._resolve_renames(known)
         if self.known is not None:
             called = set()
             for n, b in d["bodies"].items():
@@ -39,6 +42,64 @@ class Facts:
                         if c in d["bodies"] and self._is_helper(c):
                             called.add(c)
             self.absorbed = called
+
+    def _resolve_renames(self, known):
+        """A reference function that is missing from this tree while exactly one function outside the
+        vocabulary has its signature (and lives in the same module) is that function under a new name:
+        the fact base is rewritten to the reference name, so rules keep their anchors."""
+        bodies = self.d["bodies"]
+
+        def sig(b):
+            return "(%s) -> %s" % (", ".join(b["locals"][i]["ty"] for i in range(1, b["arg_count"] + 1)), b["locals"][0]["ty"])
+
+        def module(n):
+            return n.rsplit("::", 1)[0] if "::" in n else ""
+        missing = [n for n in known if n not in bodies and "{closure" not in n and known[n]]
+        fresh = [n for n, b in bodies.items() if n not in known and b["kind"] in ("Fn", "AssocFn")]
+        for old in missing:
+            cands = [n for n in fresh if sig(bodies[n]) == known[old] and module(n) == module(old)]
+            others = [m for m in missing if m != old and known[m] == known[old] and module(m) == module(old)]
+            if len(cands) == 1 and not others:
+                self.renamed[old] = cands[0]
+                continue
+            if not cands:
+                # moved to another module (and possibly renamed): unique signature match crate-wide
+                anyc = [n for n in fresh if sig(bodies[n]) == known[old]]
+                anyo = [m for m in missing if m != old and known[m] == known[old]]
+                if len(anyc) == 1 and not anyo and known[old].count(",") + (0 if known[old].startswith("()") else 1) >= 1:
+                    self.renamed[old] = anyc[0]
+        if not self.renamed:
+            return
+        back = {new: old for old, new in self.renamed.items()}
+
+        def fix_name(n):
+            if not isinstance(n, str):
+                return n
+            for new, old in back.items():
+                if n == new:
+                    return old
+                if n.startswith(new + "::{"):
+                    return old + n[len(new):]
+            return n
+
+        def walk(x):
+            if isinstance(x, dict):
+                for k, v in x.items():
+                    if k in ("callee", "resolved", "callee_full", "name", "def", "fn", "closure") and isinstance(v, str):
+                        x[k] = fix_name(v)
+                    else:
+                        walk(v)
+            elif isinstance(x, list):
+                for v in x:
+                    walk(v)
+        nb = {}
+        for n, b in bodies.items():
+            walk(b)
+            nb[fix_name(n)] = b
+        self.d["bodies"] = nb
+        for k in ("consts", "statics", "items"):
+            if isinstance(self.d.get(k), dict):
+                self.d[k] = {fix_name(n): v for n, v in self.d[k].items()}
 
     def _is_helper(self, name):
         if self.known is None or name in self.known:
